@@ -124,11 +124,13 @@ fn getinfo_algorithms(list: &V) -> Verdict {
 pub fn run(ctx: &'static Ctx) {
     ctx.rule("state = list built by appending one entry at a time; every list is decoded in every context by the real code and compared with filter(known).take(2) in order (parameters) / known formats in order + unknown flag (formats); non-trivial = at least two entries");
     // parameters
-    let mut alpha = vec![param(-7, PUBLIC_KEY), param(-8, PUBLIC_KEY), param(-257, PUBLIC_KEY), param(-7, "private-key")];
+    // letters 0..4 are the property's alphabet; letter 4 is an unknown type string that fills the
+    // 32-byte capacity of the type member (any shorter capacity would reject the whole list)
+    let mut alpha = vec![param(-7, PUBLIC_KEY), param(-8, PUBLIC_KEY), param(-257, PUBLIC_KEY), param(-7, "private-key"), param(-8, &fill_text(32, 1))];
     let mut max_len = 6;
     if ctx.thorough() {
-        alpha.extend([param(i32::MIN as i64, PUBLIC_KEY), param(i32::MAX as i64, PUBLIC_KEY), param(-8, &fill_text(32, 1))]);
-        max_len = 7;
+        alpha.extend([param(i32::MIN as i64, PUBLIC_KEY), param(i32::MAX as i64, PUBLIC_KEY), param(-7, &fill_text(17, 2))]);
+        max_len = 6;
     }
     let n = alpha.len() as u64;
     let expect: u64 = (0..=max_len as u32).map(|k| n.pow(k)).sum();
